@@ -28,6 +28,14 @@ def main():
     seed = int(os.environ.get("VERIF_SEED", "0") or 0)
     tier = a.tier if a.tier in ("quick", "thorough") else "quick"
     core.TIER = tier
+    # watchdog: a check that runs away is a harness problem (exit 2), never a verdict
+    import signal
+
+    def _alarm(signum, frame):
+        raise core.Timeout(f"overall time limit of the {tier} tier exceeded")
+
+    signal.signal(signal.SIGALRM, _alarm)
+    signal.alarm(int(os.environ.get("VERIF_TIME_LIMIT", 1500 if tier == "quick" else 3 * 3600)))
     import props  # noqa: E402
 
     fn = getattr(props, "check_" + a.pid, None)
